@@ -275,6 +275,21 @@ class Interp:
             return bool(v != 0)
         return v != 0
 
+    def lval(self, lhs, env, env_t):
+        """-> (container, key) of an assignable expression; index expressions are evaluated exactly once, left to right"""
+        k = lhs[0]
+        if k == "var":
+            return self.lookup(lhs[1], env), lhs[1]
+        if k == "idx":
+            c = self.lookup(lhs[1], env)[lhs[1]]
+            idx = [self.ev(i, env, env_t) for i in lhs[2]]
+            for i in idx[:-1]:
+                c = c[i]
+            return c, idx[-1]
+        if k == "fld":
+            return self.lookup(lhs[1], env)[lhs[1]], lhs[2]
+        raise KeyError(k)
+
     def store(self, lhs, v, env, env_t):
         import copy
         if isinstance(v, (list, dict)):
@@ -312,9 +327,14 @@ class Interp:
             tl = self.etype(s[1], env_t)
             if s[2] == "=":
                 v = self.ev(s[3], env, env_t)
+                self.store(s[1], _val(v, tl), env, env_t)
             else:
-                v = self.binop(s[2][0], self.ev(s[1], env, env_t), self.ev(s[3], env, env_t), tl, self.etype(s[3], env_t))
-            self.store(s[1], _val(v, tl), env, env_t)
+                # `l op= r`: the target is designated ONCE (its index expressions are evaluated once, C semantics), read, combined, written
+                import copy
+                cont, key = self.lval(s[1], env, env_t)
+                v = self.binop(s[2][0], cont[key], self.ev(s[3], env, env_t), tl, self.etype(s[3], env_t))
+                v = _val(v, tl)
+                cont[key] = copy.deepcopy(v) if isinstance(v, (list, dict)) else v
         elif k == "expr":
             self.ev(s[1], env, env_t)
         elif k == "if":
